@@ -284,6 +284,7 @@ func (env *ExecEnv) expandParam(fields []*field, pe *ast.ParamExp, mode ExpMode)
 				b.WriteString(s)
 			}
 			a = []string{b.String()}
+			null = b.Len() == 0
 		}
 	default:
 		var v Var
